@@ -297,7 +297,10 @@ class DispatchingShell(cmd.Cmd):
         else:
             components = shlex.split(arg)
             name = components[0]
-            if len(components) == 1:
+            if name not in self.settings:
+                # Other attributes of the settings object are not variables.
+                self.error(f'variable "{name}" does not exist')
+            elif len(components) == 1:
                 try:
                     value = self.settings.getstr(name)
                     print(f'{name}: {value}', file=self.outfile)
